@@ -4,7 +4,7 @@ from re import Pattern
 from flowmark.linewrapping.tag_handling import TEMPLATE_TAG_PATTERN
 
 ELLIPSIS_PATTERN: Pattern[str] = re.compile(
-    r"(^|[\w\"\'“‘])(\s*)(\.\.\.)([.,:;?!)\-—\"\'”’]?)(\s*)",
+    r"(^|[\w\"\'“‘”’])(\s*)(\.\.\.)([.,:;?!)\-—\"\'”’]?)(\s*)",
     re.MULTILINE,
 )
 
